@@ -269,7 +269,7 @@ def read_byte(ex, seq_t, idx_t):
     if hit is not None:
         return hit
     # a read at a position the simplifier can resolve (unit inside a concatenation) needs no name
-    if ci is not None and z3.is_app(seq_t) and seq_t.decl().kind() == z3.Z3_OP_SEQ_CONCAT:
+    if ci is not None and z3.is_app(seq_t) and seq_t.decl().kind() in (z3.Z3_OP_SEQ_CONCAT, z3.Z3_OP_SEQ_UNIT):
         direct = _unit_at(seq_t, ci, ex)
         if direct is not None:
             r = mk_int(direct)
@@ -1410,6 +1410,12 @@ def bv_op(ex, t, a, b):
                 kb = max(cv.bit_length(), 1)
                 if kb not in ks:
                     ks.append(kb)
+            # a power of two that syntactically divides u (e.g. 16384 + 4096*p): u's low bits are zero
+            fu = term_factor(u, 0)
+            if fu > 1:
+                kf = (fu & -fu).bit_length() - 1
+                if kf > 0 and kf not in ks:
+                    ks.append(kf)
             for k in ks:
                 if ex.proves(z3.And(u % (1 << k) == 0, v >= 0, v < (1 << k))):
                     r = mk_int(u + v)
